@@ -266,13 +266,18 @@ func cdGenLane(rng *rand.Rand) string {
 		switch k := rng.Intn(10); {
 		case k < 4:
 			w := wk{pick(rng, types), pick(rng, lanes)}
+			if nextID > 1 && rng.Intn(3) == 0 {
+				// overlap: a second Do under the key of an earlier one (waiting or cancelled) — the registry entry is taken
+				// over, and a cancel of either call then acts on an entry the other may own
+				w = keys[1+rng.Intn(nextID-1)]
+			}
 			keys[nextID] = w
 			live = append(live, nextID)
 			steps = append(steps, fmt.Sprintf("r%d:%s:%s", nextID, w.typ, hx(w.lane)))
 			nextID++
 		case k < 8:
 			w := wk{pick(rng, types), pick(rng, lanes)}
-			if len(live) > 0 && rng.Intn(3) != 0 { // mostly aimed at somebody who waits, or nearly
+			if len(live) > 0 && rng.Intn(3) != 0 { // mostly aimed at somebody who waits or waited (live holds every call made), or nearly
 				w = keys[pick(rng, live)]
 				switch rng.Intn(6) {
 				case 0:
